@@ -249,6 +249,33 @@ func oracle(c core.Case, out []string) []core.Finding {
 			if f[0] == "wsync" {
 				ackLive()
 			}
+		case "writerot":
+			if !strings.HasPrefix(o, "ok ") {
+				continue
+			}
+			if needRecover {
+				unjudged = true
+			}
+			for _, t := range strings.Fields(o) {
+				if strings.HasPrefix(t, "w=") && t != "w=1" {
+					add("wal.Encode.record-split-across-writes",
+						"WALEncoder.Encode handed one record to the group in "+strings.TrimPrefix(t, "w=")+" Write calls: the record is not atomic against RotateFile (the size-limit ticker can rotate between them, a file then starts in the middle of a record)")
+				}
+			}
+			d, _ := unhx(m["data"])
+			appendRec(d)
+			if strings.Contains(o, "rotated=true") {
+				ackLive()
+				_, max, _ := parseDump(o)
+				for k := range j {
+					if j[k].file == -1 {
+						j[k].file = max - 1
+					}
+				}
+			}
+			if m["sync"] != "0" {
+				ackLive()
+			}
 		case "sync":
 			if o == "ok" {
 				ackLive()
@@ -486,6 +513,8 @@ func nonTrivial(c core.Case, out []string) bool {
 			ev = ev || (out[i] != "bad-op" && out[i] != "skip")
 		case "rotate":
 			ev = ev || strings.HasPrefix(out[i], "rotated=true")
+		case "writerot":
+			ev = ev || strings.Contains(out[i], "rotated=true")
 		case "prune":
 			ev = ev || (strings.HasPrefix(out[i], "removed=") && !strings.HasPrefix(out[i], "removed=-"))
 		case "readall":
